@@ -28,6 +28,7 @@ var Harnesses = map[string]func(){
 	"cont.H_Builtins":         cont.H_Builtins,
 	"cont.H_Reserved":         cont.H_Reserved,
 	"cont.H_Faults":           cont.H_Faults,
+	"cont.H_OptionalFault":    cont.H_OptionalFault,
 	"cont.H_KeyedLifetimes":   cont.H_KeyedLifetimes,
 	"cont.H_SharedCodeConc":   cont.H_SharedCodeConc,
 	"cont.H_Rebuild":          cont.H_Rebuild,
